@@ -48,28 +48,28 @@ RIME_API RimeModule* RimeFindModule(const char* module_name) {
 
 void RimeGetSharedDataDirSecure(char* dir, size_t buffer_size) {
   string string_path = Service::instance().deployer().shared_data_dir.string();
-  strncpy(dir, string_path.c_str(), buffer_size);
+  copy_string_to_buffer(dir, string_path, buffer_size);
 }
 
 void RimeGetUserDataDirSecure(char* dir, size_t buffer_size) {
   string string_path = Service::instance().deployer().user_data_dir.string();
-  strncpy(dir, string_path.c_str(), buffer_size);
+  copy_string_to_buffer(dir, string_path, buffer_size);
 }
 
 void RimeGetPrebuiltDataDirSecure(char* dir, size_t buffer_size) {
   string string_path =
       Service::instance().deployer().prebuilt_data_dir.string();
-  strncpy(dir, string_path.c_str(), buffer_size);
+  copy_string_to_buffer(dir, string_path, buffer_size);
 }
 
 void RimeGetStagingDirSecure(char* dir, size_t buffer_size) {
   string string_path = Service::instance().deployer().staging_dir.string();
-  strncpy(dir, string_path.c_str(), buffer_size);
+  copy_string_to_buffer(dir, string_path, buffer_size);
 }
 
 void RimeGetSyncDirSecure(char* dir, size_t buffer_size) {
   string string_path = Service::instance().deployer().sync_dir.string();
-  strncpy(dir, string_path.c_str(), buffer_size);
+  copy_string_to_buffer(dir, string_path, buffer_size);
 }
 
 const char* RimeGetVersion() {
